@@ -5,7 +5,6 @@ NOTES = ("One entry point: ./check <ID> [--tier quick|thorough] [--replay FILE].
 
 NOT_APPLICABLE = [
     dict(property_id="C04", reason="end state of a process tree (tokio tasks + ssh + remote sh pipelines); no contract on a Rust function states it. Decidable fragments are claimed under C19 (plan), C15 (exclude/delete) and C09 (per-file delivery)."),
-    dict(property_id="C13", reason="client and hub are separate processes driven over pipes across several runs by several clients; needs a process-level history model, which is another technique family. Hub-side guarantees are claimed under C03/C10."),
     dict(property_id="C14", reason="stability of (size, mtime) through SystemTime, remote `touch -d @` and `find -printf %T@` in three directions; two of the three actors are not Rust code. needs_transfer (C19) is the decidable fragment."),
 ]
 
@@ -72,6 +71,9 @@ CHECKS["C06"] = dict(
     text="Exact per-action contract for what apply records, winner/loser rule of divergent edits (greater BLAKE3 at the path, loser at the conflict-copy name, both sides), record-names-only-live-paths invariant of run_bisync; convergence/idempotence as whole-tree equality is exercised by the history twin only.",
     note=_BISYNC_NOTE, technique="Verus contracts against a ghost file-system world", design_ref="DESIGN.md §3 C02/C06/C07/C08")
 _SERVE_NOTE = "Trusted: Verus+Z3 / Kani+CBMC, extractor rules, ghost world with commit lock and process-private staging names, fs2 flock as mutual exclusion, std::path component grammar behind safe_join (assumed, validated), ciborium by contract. Interleavings are not explored by a verifier: the lock-discipline contracts plus the standard linearizability argument; the session twin forces named schedules on the real binary."
+CHECKS["C13"] = dict(text="Verus contract on the extracted hub_sync over a ghost request log: after the List the run sends only compare-and-swap Puts, one for each local file whose listed hash differs, with expected == the listed hash and the local fingerprint as content hash; up-to-date files are skipped; Ok iff every needed Put was committed. That is the client-side half of the property for ONE run; the hub-side half is C03/C10. A run twin on the real binary (quiet hub, immediate second run, forced stale listing) validates the assumed HubClient contract.",
+                     note="Trusted: HubClient methods and discover_local_fingerprints by contract, two R5 shims, the BTreeMap key model. Not decided: multi-client run sequences (induction on runs is a paper argument), the SSH target form.",
+                     technique="Verus contract over a ghost request log (per-run client protocol); run twin on the real binary", design_ref="DESIGN.md §3 C13")
 CHECKS["C09"] = dict(text="local->local and pull: Verus contracts on the extracted deliver_local / deliver_pull / tmp_path / create_local_dirs against a ghost world whose primitives allow non-atomic writes only on *.copia-tmp and a rename only of a WHOLE staging file, with an effect log whose prefixes are the kill points (unbounded: every file content, every outcome). push: NOT provable by contracts (the deciding step is a remote shell command) - a BOUNDED fault enumeration on the real binary stands in: every kill point of one 5-file tree per direction under a ptrace supervisor.",
                      note="Trusted: the ghost one-way world and transfer_file_from_remote's assumed contract (validated by the crash oracle incl. a failing remote end), R4 async erasure, path algebra. Bounded stand-in (push, and the two-run 're-run converges' clause for all directions): one tree, -j 1, all kill points. H13 (push published truncated files when the sender died) was found by it and fixed in /repo bb79f84.",
                      technique="Verus contracts against a ghost crash world (effect-log prefixes) for local/pull; bounded kill-point enumeration on the real binary for push", design_ref="DESIGN.md §3 C09")
